@@ -3,7 +3,7 @@ From Coq Require Import NArith ZArith List Bool String.
 From ZV.Codec Require Import Bytes XXH64 Fse Huf Block Frame.
 From ZV.Gen Require Import Gen_Tables Gen_C03.
 From ZV.Safety Require Import DDictHashSet DDictHashSetProofs RTotal ROutput RBound RCopy REntropy NoProgress NoProgressProofs Witnesses Consts LitBuffer LitBufferProofs RingBuffer RingBufferProofs
-  Continuity ContinuityProofs.
+  Continuity ContinuityProofs CtxPointers CtxPointersProofs.
 Import ListNotations.
 Local Open Scope N_scope.
 
@@ -284,6 +284,22 @@ Example C03_continuity_fixed_example :
   let os := [RefDict 500 100; Insert 1000 0; Decode 1000 300 120; Insert 4000 16] in
   Forall wf_op os /\ run step_fixed c_init os = {| c_prev := 4016; c_prefix := 4000; c_virt := 3880; c_dictEnd := 1120 |}.
 Proof. exact continuity_fixed_example. Qed.
+
+(* ---- ZSTD_copyDCtx: the entropy-table pointers of a context never point into another context (round 2) ---- *)
+(* for every history of ZSTD_decompressBegin[_usingDict] / _usingDDict, blocks in any table modes and ZSTD_copyDCtx between any contexts: with the
+   repaired copy (a pointer into the source's entropy struct is rebased to the destination's), every table pointer of a context points into its own
+   struct, a static default table or a DDict *)
+Theorem C03_ctx_pointers_private : forall os c p, prun true os c = Some p -> all_private c p.
+Proof. exact ctx_pointers_private. Qed.
+Print Assumptions C03_ctx_pointers_private.
+
+(* the verbatim copy (finding C03-copydctx-table-pointers-into-source): prepare context 1, copy it to context 2, decode a block in repeat mode *)
+Theorem C03_ctx_pointers_copy_refuted :
+  prun false [Begin 1; Copy 2 1; Block 2 Repeat Repeat Repeat Repeat] 2 = Some (Own 1, Own 1, Own 1, Own 1) /\
+  ~ all_private 2 (Own 1, Own 1, Own 1, Own 1) /\
+  prun true [Begin 1; Copy 2 1; Block 2 Repeat Repeat Repeat Repeat] 2 = Some (Own 2, Own 2, Own 2, Own 2).
+Proof. exact ctx_pointers_copy_refuted. Qed.
+Print Assumptions C03_ctx_pointers_copy_refuted.
 
 (* ---- the limits of the model are the limits of the current sources ---- *)
 Theorem C03_gen_consts_match_model :
